@@ -14,6 +14,7 @@ DECIDED = [
     "ERRCHAN: every `return AWS_OP_ERR` of an int-returning parser function follows aws_raise_error or the failure of a callee that raised",
     "ABORT: no abort()/fatal assertion in a parser depends on input bytes (only on API misuse and internal state)",
     "REQUIRES/SUMMARY: the preconditions NUM assumes at the entry of internal helpers (3 bytes of room for the URI character appenders, the '<' before an XML declaration view) hold at every call site, and the callee postconditions it uses at call sites (buffer reserve, exact find, appender growth 1..3) are re-derived from the callees' bodies",
+    "AVX-SHELL: the 32-byte loads/stores and bounce-buffer copies of the vectorised base64 codec's scalar shell are inside the caller's buffers (rule shared with C05)",
     "WRAPPER: JSON text is parsed from a NUL-terminated private copy that is destroyed on every path; every public CBOR decode entry tests the sticky error first and consumes exactly the bytes the stream decoder reports",
 ]
 NOT_DECIDED = ["internals of the vendored cJSON and libcbor (only their call sites and their nesting limits)", "content-dependent facts (which byte values occur where)", "libc calls (strtod, sscanf, strftime)"]
@@ -311,6 +312,9 @@ def analyse(ctx, replace=None, only=None, config="ship"):
     errchan(R, P, fns)
     aborts(R, P, fns)
     wrappers(R, P)
+    # the scalar shell of the vectorised base64 codec (bounds of its vector loads/stores and bounce buffers): rules/C05.py
+    from rules import C05
+    C05.avx_shell(R, P)
 
 
 def recursion(R, P, fns):
